@@ -26,6 +26,7 @@ RULE = ("One evaluation = one seeded execution (direct hints one way or both "
         "candidates raced in one generation. Distinct: event-log digests "
         "among non-trivial runs.")
 RULE += (' The end-to-end configuration also loses the connection silently (no end told, clock running: only the ping monitor notices).')
+RULE += (' A fifth configuration (relay_race) has direct hints and a relay; after the first connection only the relay stays reachable.')
 LEVEL_TEXT = ("Seeded exploration. After every event: roles differ and the "
               "Leader is the side with the larger dilation side; each side "
               "has at most one live selected L2 protocol; a connection the "
